@@ -2181,7 +2181,12 @@ uint32 Message :: TemplatedFlattenedSize(const Message & templateMsg) const
    for (ConstHashtableIterator<String, MessageField> iter(templateMsg._entries, HTIT_FLAG_NOREGISTER); iter.HasData(); iter++)
    {
       const MessageField & mf = iter.GetValue();
-      if (mf.IsFlattenable()) numBytes += mf.TemplatedFlattenedSize(_entries.Get(iter.GetKey()));
+      if (mf.IsFlattenable())
+      {
+         // must choose the payload field exactly as TemplatedFlatten() does:  a same-named field of another type is not a payload for (mf)
+         const MessageField * payloadField = _entries.Get(iter.GetKey());
+         numBytes += mf.TemplatedFlattenedSize(((payloadField)&&(payloadField->TypeCode() == mf.TypeCode())) ? payloadField : NULL);
+      }
    }
    return numBytes;
 }
@@ -3072,7 +3077,9 @@ void MessageField :: TemplatedFlatten(const MessageField * optPayloadField, uint
                   const void * ptr = NULL;
                   if (optPayloadField->FindDataItem(i, &ptr).IsOK(ret))
                   {
-                     if (synthField.ReplaceDataItem(i, ptr, optPayloadField->GetItemSize(i)).IsError(ret))
+                     // ReplaceDataItem() wants the size of the in-memory item (a String or a Ref object for the variable-sized types), not its flattened size
+                     const uint32 memItemSize = ElementsAreFixedSize() ? optPayloadField->GetItemSize(i) : ((_typeCode == B_STRING_TYPE) ? (uint32) sizeof(String) : (uint32) sizeof(RefCountableRef));
+                     if (synthField.ReplaceDataItem(i, ptr, memItemSize).IsError(ret))
                      {
                         LogTime(MUSCLE_LOG_ERROR, "TemplatedFlatten:  ReplaceDataItem(" UINT32_FORMAT_SPEC ") failed! [%s]\n", i, ret());
                         break;
